@@ -372,7 +372,7 @@ Proof.
 Qed.
 
 Lemma step_inv13 c s o s' out :
-  c_ordered c = true -> c_delretry c = true ->
+  c_ordered c = true -> delok c o ->
   inv1 s /\ inv3 s -> step c s o = Some (s', out) -> inv1 s' /\ inv3 s'.
 Proof.
   intros O DR (I1 & I3) H. split; [eapply step_inv1; eauto|].
@@ -384,14 +384,14 @@ Proof.
   - inversion H. change s' with (fst (s', out)). rewrite <- H1. apply do_done_inv3; auto.
   - inversion H. change s' with (fst (s', out)). rewrite <- H1. apply do_poison_inv3; auto.
   - inversion H. change s' with (fst (s', out)). rewrite <- H1. apply do_cksf_inv3; auto.
-  - inversion H. change s' with (fst (s', out)). rewrite <- H1. apply do_relf_inv3; auto.
+  - inversion H. change s' with (fst (s', out)). rewrite <- H1. destruct DR as [DR|[]]. apply do_relf_inv3; auto.
   - inversion H. change s' with (fst (s', out)). rewrite <- H1. apply do_crash_inv3; auto.
   - inversion H. change s' with (fst (s', out)). rewrite <- H1. apply do_relstop_inv3; auto.
 Qed.
 
 (* an established session whose latest checkpoint took effect has its image in the store *)
 Lemma established_has_image c ops s :
-  c_ordered c = true -> c_delretry c = true -> run c init ops = Some s ->
+  c_ordered c = true -> Forall (delok c) ops -> run c init ops = Some s ->
   forall i r t, aget i (live s) = Some r -> s_stamp r = Some t -> In (i, t) (completed s) ->
   (exists r0, aget i (store s) = Some r0 /\ same_core r0 r) /\
   (forall (p : bool) f now, expired c now r = false ->
@@ -399,7 +399,7 @@ Lemma established_has_image c ops s :
 Proof.
   intros O DR R i r t GL ST IN.
   assert (I : inv1 s /\ inv3 s).
-  { eapply (run_inv (fun s => inv1 s /\ inv3 s) c); eauto.
+  { eapply (run_inv_ok (fun s => inv1 s /\ inv3 s) (delok c) c); eauto.
     - intros. eapply step_inv13; eauto.
     - split; [apply inv1_init|apply inv3_init]. }
   destruct I as (I1 & I3). destruct (m_sync s I3 i r t GL ST IN) as (r0 & G0 & SC).
